@@ -174,6 +174,12 @@ pub fn gen_setup(rng: &mut Rng, n: usize, out: &mut Vec<String>) {
         }
     }
     // oracle-only: unreachable endpoint; a connection timeout bounds StartTLS against a silent server
+    // always: the combinations of a scheme with the StartTLS setting - an ldaps URL speaks TLS from the first byte whatever the setting says,
+    // ldap + StartTLS sends the StartTLS request first, plain ldap sends its first operation in the clear
+    for (u, sch, port, st) in [("ldaps://localhost:38901", "ldaps", "38901", 1), ("ldaps://localhost:38901", "ldaps", "38901", 0), ("ldap://localhost:38901", "ldap", "38901", 1), ("ldap://localhost:38901", "ldap", "38901", 0), ("ldaps://localhost", "ldaps", "none", 1)] {
+        let line = format!("setup {} {} {} {} {} none 2000", hex(u.as_bytes()), sch, hex(b"localhost"), port, st);
+        if !out.iter().any(|x| *x == line) { out.push(line); }
+    }
     out.push(format!("setupx {} unreachable", hex(b"ldap://127.0.0.1:38999")));
     out.push(format!("setupx {} silent-starttls", hex(format!("ldap://127.0.0.1:{}", P_SILENT).as_bytes())));
     out.push(format!("setupx {} silent-starttls-prestream", hex(b"ldap://localhost")));
